@@ -187,11 +187,10 @@ Lemma take_frags_stream w w1 frags :
   take_trailing_fragments w = (w1, frags) ->
   bstream w1 = bstream w /\ flat_map elem_text frags = [].
 Proof.
-  unfold take_trailing_fragments. destruct (word_is_empty (wword w)) eqn:E; intros H;
-    injection H as <- <-.
-  - pose proof (word_is_empty_text _ E) as Ht. split; [|exact Ht].
-    unfold bstream. cbn [set_word wtext wline wword flat_map]. rewrite Ht. reflexivity.
-  - split; reflexivity.
+  rewrite ttf_eq. intros H. injection H as <- <-.
+  pose proof (no_content_text _ (tfr_snd_nocontent (wword w))) as Ht. split; [|exact Ht].
+  unfold bstream. cbn [set_word wtext wline wword]. rewrite (tfr_app (wword w)) at 2.
+  rewrite flat_map_app, Ht, app_nil_r. reflexivity.
 Qed.
 
 (* ================================================================== *)
